@@ -1,5 +1,10 @@
 import Ptk.Proto
 import Ptk.Model.C16
+import Ptk.Model.C16World
+import Ptk.Model.C16Keys
+import Ptk.Gen.C16
+import Ptk.Gen.C16Fold
+import Ptk.Gen.PyChars
 open Ptk Ptk.Py Ptk.Proto Ptk.C16
 
 /-- parse `n s₁ … sₙ rest…` -/
@@ -17,7 +22,9 @@ def encDir : Dir → String
   | .fwd => "F"
   | .bwd => "B"
 
-def pickEq (ic : Bool) : Char → Char → Bool := if ic then eqCI else eqCS
+/-- ignore-case: the folding classes of the interpreter's `re.IGNORECASE` (generated table) -/
+def pickEq (ic : Bool) : Char → Char → Bool :=
+  if ic then eqFold Ptk.Gen.C16Fold.foldRanges else eqCS
 
 def encPos : Option (Nat × Nat) → String
   | none => "N"
@@ -53,6 +60,13 @@ def findLine : List String → Option String
   | ["find", t, c, sub, incl, ic] => do
     let r := docFind (pickEq (← decBool ic)) (← decStr t) (← decNat c) (← decStr sub) (← decBool incl)
     pure (encOptInt (r.map Int.ofNat))
+  | ["findx", t, c, sub, inl, incl, ic, cnt] => do
+    let r := docFindX (pickEq (← decBool ic)) (← decStr t) (← decNat c) (← decStr sub) (← decBool inl)
+      (← decBool incl) (← decNat cnt)
+    pure (encOptInt (r.map Int.ofNat))
+  | ["findbx", t, c, sub, inl, ic, cnt] => do
+    pure (encOptInt (docFindBackX (pickEq (← decBool ic)) (← decStr t) (← decNat c) (← decStr sub)
+      (← decBool inl) (← decNat cnt)))
   | ["findb", t, c, sub, ic] => do
     pure (encOptInt (docFindBack (pickEq (← decBool ic)) (← decStr t) (← decNat c) (← decStr sub)))
   | _ => none
@@ -61,13 +75,27 @@ structure DSt where
   vi : Bool
   ic : Bool
   s : Sess
+  ro : Bool := false
+  w : World := { bufs := [], ctrls := [], fields := [], focus := .other }
+
+/-- the interpreter's regex `\s` (generated from the running Python) -/
+def isSp : Char → Bool := Ptk.Gen.reSpace
 
 def showSess (d : DSt) : String :=
   let s := d.s
   let (pt, pc) := preview (pickEq d.ic) s
-  s!"{encList encStr s.buf.lines} {s.buf.widx} {s.buf.cur} | {encStr s.field} {encStr s.stext} {encDir s.sdir} {encBool s.searching} | {encStr pt} {pc}"
+  s!"{encList encStr s.buf.lines} {s.buf.widx} {s.buf.cur} | {encStr s.field} {encStr s.stext} {encDir s.sdir} {encBool s.searching} | {encStr pt} {pc} | {encList encStr (s.fbefore ++ [s.field] ++ s.fafter)} {s.fbefore.length} {encList encStr s.fhist}"
+
+def parseXKey : List String → Option XKey
+  | ["star", n] => do pure (.star (← decNat n))
+  | ["hash", n] => do pure (.hash (← decNat n))
+  | ["jn", a] => do pure (.jumpNext (← decInt a))
+  | ["jp", a] => do pure (.jumpPrev (← decInt a))
+  | _ => none
 
 def parseKey : List String → Option Key
+  | ["hup"] => some .histPrev
+  | ["hdown"] => some .histNext
   | ["start", d] => do pure (.start (← decDir d))
   | ["type", c] => do
     match ← decStr c with
@@ -98,19 +126,157 @@ def initLine (toks : List String) : Option DSt := do
     | _ => none
   | _ => none
 
+
+/-! ### several controls / search fields -/
+
+def eqOf (ic : Bool) : Char → Char → Bool := pickEq ic
+
+/-- parse `n` buffers, each `m s₁ … s_m widx cur` -/
+def takeBufs : Nat → List String → Option (List Buf × List String)
+  | 0, rest => some ([], rest)
+  | n + 1, mTok :: rest => do
+    let m ← decNat mTok
+    let (ls, rest) ← takeStrs m rest
+    match rest with
+    | w :: c :: rest =>
+      let b : Buf := { lines := ls, widx := ← decNat w, cur := ← decNat c }
+      let (bs, r) ← takeBufs n rest
+      pure (b :: bs, r)
+    | _ => none
+  | _ + 1, [] => none
+
+/-- parse `n` controls, each `buf sf` (`sf = -1`: not searchable) -/
+def takeCtrls : Nat → List String → Option (List Ctrl × List String)
+  | 0, rest => some ([], rest)
+  | n + 1, b :: f :: rest => do
+    let b ← decNat b
+    let f ← decInt f
+    let (cs, r) ← takeCtrls n rest
+    pure ({ buf := b, sf := if f < 0 then none else some f.toNat } :: cs, r)
+  | _ + 1, _ => none
+
+/-- parse `n` search fields, each `ic m h₁ … h_m` -/
+def takeFields : Nat → List String → Option (List SField × List String)
+  | 0, rest => some ([], rest)
+  | n + 1, ic :: mTok :: rest => do
+    let ic ← decBool ic
+    let m ← decNat mTok
+    let (hs, rest) ← takeStrs m rest
+    let (fs, r) ← takeFields n rest
+    pure ({ field := [], fhist := hs, ic := ic } :: fs, r)
+  | _ + 1, _ => none
+
+def decFocus : List String → Option Focus
+  | ["c", i] => do pure (.ctrl (← decNat i))
+  | ["f", k] => do pure (.field (← decNat k))
+  | ["o"] => some .other
+  | _ => none
+
+def encFocus : Focus → String
+  | .ctrl i => s!"c{i}"
+  | .field k => s!"f{k}"
+  | .other => "o"
+
+/-- `winit vi nb bufs… nc ctrls… nf fields… focus` -/
+def winitLine (toks : List String) : Option (Bool × World) := do
+  match toks with
+  | vi :: nb :: rest =>
+    let vi ← decBool vi
+    let (bs, rest) ← takeBufs (← decNat nb) rest
+    match rest with
+    | nc :: rest =>
+      let (cs, rest) ← takeCtrls (← decNat nc) rest
+      match rest with
+      | nf :: rest =>
+        let (fs, rest) ← takeFields (← decNat nf) rest
+        let foc ← decFocus rest
+        -- the harness puts a Vi application into navigation mode first and presses a key on every
+        -- control: cursor fix in every buffer that some control shows
+        let bs' := (List.range bs.length).map fun j =>
+          let b := bs.getD j emptyBuf
+          if vi && cs.any (fun c => c.buf == j) then viFix b else b
+        pure (vi, { bufs := bs', ctrls := cs, fields := fs, focus := foc })
+      | _ => none
+    | _ => none
+  | _ => none
+
+def showWorld (w : World) : String :=
+  let bs := w.bufs.map fun b => s!"{encList encStr b.lines} {b.widx} {b.cur}"
+  let fs := w.fields.map fun f =>
+    let l := match f.link with
+      | none => "-"
+      | some i => toString i
+    s!"{encStr f.field} {encStr f.stext} {encDir f.sdir} {l} {encList encStr (f.fbefore ++ [f.field] ++ f.fafter)} {f.fbefore.length} {encList encStr f.fhist}"
+  let ps := (List.range w.ctrls.length).map fun i =>
+    let (t, c) := wpreview eqOf w i
+    s!"{encStr t} {c}"
+  s!"{encFocus w.focus} {encBool w.isSearching} | {" ; ".intercalate bs} | {" ; ".intercalate fs} | {" ; ".intercalate ps}"
+
+def parseWKey : List String → Option WKey
+  | "focus" :: rest => do pure (.focus (← decFocus rest))
+  | ["startfor", i, d] => do pure (.startFor (← decNat i) (← decDir d))
+  | "key" :: rest => do pure (.key (← (parseKey rest).map XKey.base <|> parseXKey rest))
+  | _ => none
+
+/-- `initx vi ic ro n lines… widx cur m fhist…` -/
+def initxLine (toks : List String) : Option DSt := do
+  match toks with
+  | vi :: ic :: ro :: nTok :: rest =>
+    let vi ← decBool vi
+    let ic ← decBool ic
+    let ro ← decBool ro
+    let n ← decNat nTok
+    let (ls, rest) ← takeStrs n rest
+    match rest with
+    | w :: c :: mTok :: rest2 =>
+      let m ← decNat mTok
+      let (fh, rest3) ← takeStrs m rest2
+      if !rest3.isEmpty then none
+      let b : Buf := { lines := ls, widx := ← decNat w, cur := ← decNat c }
+      pure { vi := vi, ic := ic, ro := ro,
+             s := { buf := if vi then viFix b else b,
+                    field := [], stext := [], sdir := .fwd, searching := false, fhist := fh } }
+    | _ => none
+  | _ => none
+
 def stepLine (d : DSt) (toks : List String) : DSt × String :=
   match toks with
+  | "winit" :: rest =>
+    match winitLine rest with
+    | some (vi, w) => ({ d with vi := vi, w := w }, showWorld w)
+    | none => (d, "bad-op")
+  | "wkey" :: rest =>
+    match parseWKey rest with
+    | some k =>
+      let w' := wstep eqOf isSp d.vi d.w k
+      ({ d with w := w' }, showWorld w')
+    | none => (d, "bad-op")
+  | ["raw", name, arg] =>
+    -- a physical key, dispatched through the binding table generated from the current tree
+    match decInt arg with
+    | some a =>
+      let ch : Char := if name.startsWith "ch:" then Char.ofNat ((name.drop 3).toString.toNat?.getD 97) else 'a'
+      let d' := { d with s := rawStep Ptk.Gen.C16.bindTable (pickEq d.ic) isSp d.vi d.ro d.s
+                                { name := name, ch := ch, arg := a } }
+      (d', showSess d')
+    | none => (d, "bad-op")
+  | "initx" :: rest =>
+    match initxLine rest with
+    | some d' => (d', showSess d')
+    | none => (d, "bad-op")
   | "api" :: rest => (d, (apiLine rest).getD "bad-op")
   | "find" :: _ => (d, (findLine toks).getD "bad-op")
   | "findb" :: _ => (d, (findLine toks).getD "bad-op")
+  | "findx" :: _ => (d, (findLine toks).getD "bad-op")
+  | "findbx" :: _ => (d, (findLine toks).getD "bad-op")
   | "init" :: rest =>
     match initLine rest with
     | some d' => (d', showSess d')
     | none => (d, "bad-op")
   | "key" :: rest =>
-    match parseKey rest with
+    match (parseKey rest).map XKey.base <|> parseXKey rest with
     | some k =>
-      let d' := { d with s := step (pickEq d.ic) d.vi d.s k }
+      let d' := { d with s := stepX (pickEq d.ic) isSp d.vi d.ro d.s k }
       (d', showSess d')
     | none => (d, "bad-op")
   | _ => (d, "bad-op")
